@@ -4,7 +4,7 @@
 // topology records (simkit/world.hpp) + fault scripts, then
 //   conn <c> <client node> <server node> <accept kind 0..2>
 //   gen  <c> <concurrent> <closer 0 client/1 server> <early> <hold> <server node>
-//   xfer <c> <dir 0 c->s / 1 s->c> <total> <write kind> <layout 1..4> <read kind> <read bufs 1..3> <read style 0/1>
+//   xfer <c> <dir 0 c->s / 1 s->c> <total> <write kind> <layout 1..4> <read kind> <read bufs 1..3> <read style 0 read / 1 wait+drain / 2 wait+one chunk / 3 as 2, socket move-constructed between chunks>
 // A connection runs its generations one after the other on the SAME socket
 // objects (close + connect/accept again). Within a generation the transfers
 // run one at a time in file order (concurrent = 0) or all at once.
@@ -62,7 +62,7 @@ struct Run
 	std::string err05, err06;
 	bool in_call = false;
 	std::shared_ptr<Conn> conns[MAXC];
-	bool gather_cross = false, scatter = false, reuse_unread = false, eof_seen = false, wait_style = false, late_accept = false;
+	bool gather_cross = false, scatter = false, reuse_unread = false, eof_seen = false, wait_style = false, late_accept = false, moved_mid_stream = false;
 	struct PairLog { tcp::endpoint a, b; std::size_t pos; }; std::vector<PairLog> pairs; // (client ep, server ep) of every established generation
 	void fail05(std::string m) { if (err05.empty()) err05 = std::move(m); }
 	void fail06(std::string m) { if (err06.empty()) err06 = std::move(m); }
@@ -254,7 +254,7 @@ void start_reader(std::shared_ptr<Conn> c, int dir)
 			tcp::socket& sk2 = sock_of(*c, reader2);
 			// style 1 drains the socket on every wake-up; style 2 takes one chunk and waits again (so that data and the
 			// peer's end-of-file are queued together when the next wait is started)
-			for (int guard = 0; guard < (rstyle == 2 ? 1 : 100000); ++guard)
+			for (int guard = 0; guard < (rstyle >= 2 ? 1 : 100000); ++guard)
 			{
 				boost::system::error_code e2, e3;
 				std::size_t const avail = sk2.available(e3);
@@ -269,6 +269,14 @@ void start_reader(std::shared_ptr<Conn> c, int dir)
 				if (!c->R->err05.empty()) return;
 				on_all_received_or_progress(c);
 				if (c->gen != gen || (reader2 == 0 ? c->cli_closed : c->srv_closed)) return;
+			}
+			// style 3: as style 2, and the socket is move-constructed into a new object between two chunks whenever it has
+			// nothing outstanding (no wait, no write): what it has received and not yet handed over must move with it
+			if (rstyle == 3 && !c->st[reader2].write_outstanding && (reader2 == 0 ? c->cli_up : c->srv_up) && c->connect_done && c->accept_done)
+			{
+				std::unique_ptr<tcp::socket>& up = reader2 == 0 ? c->cli : c->srv;
+				up.reset(new tcp::socket(std::move(*up)));
+				c->R->moved_mid_stream = true;
 			}
 			start_reader(c, dir);
 		});
@@ -521,7 +529,7 @@ Verdict run_case(Case const& c, Ctx& ctx)
 		else if (r.name == "xfer" && r.a.size() >= 8)
 		{
 			ConnSpec* s = spec_of(specs, r.a[0]); if (!s || !s->present || s->gens.empty() || s->gens.back().xf.size() >= 4) continue;
-			Xfer x{r.a[1] ? 1 : 0, std::max(0LL, std::min(2000000LL, r.a[2])), int(r.a[3]), int(r.a[4]), int(r.a[5]), int(r.a[6]), r.a[7] == 2 ? 2 : r.a[7] ? 1 : 0};
+			Xfer x{r.a[1] ? 1 : 0, std::max(0LL, std::min(2000000LL, r.a[2])), int(r.a[3]), int(r.a[4]), int(r.a[5]), int(r.a[6]), r.a[7] == 3 ? 3 : r.a[7] == 2 ? 2 : r.a[7] ? 1 : 0};
 			s->gens.back().xf.push_back(x);
 		}
 	}
@@ -804,7 +812,7 @@ Verdict run_case(Case const& c, Ctx& ctx)
 	for (auto const& s : specs) if (s.present) { if (s.gens.size() >= 2) any_reuse = true; for (auto const& g : s.gens) if (g.hold) any_hold = true; }
 	if (drops) ctx.label("drop"); if (redrops) ctx.label("retransmission_dropped_again"); if (reorders) ctx.label("reordered_arrival");
 	if (R.gather_cross) ctx.label("gather_write_crossing_segment"); if (R.scatter) ctx.label("scatter_read"); if (R.reuse_unread) ctx.label("reuse_with_unread_data");
-	if (any_reuse) ctx.label("reuse"); if (R.eof_seen) ctx.label("eof"); if (R.wait_style) ctx.label("wait_then_read_some"); if (R.late_accept) ctx.label("accept_posted_after_the_syn_arrived"); if (any_hold) ctx.label("hold");
+	if (any_reuse) ctx.label("reuse"); if (R.eof_seen) ctx.label("eof"); if (R.wait_style) ctx.label("wait_then_read_some"); if (R.moved_mid_stream) ctx.label("socket_moved_between_chunks"); if (R.late_accept) ctx.label("accept_posted_after_the_syn_arrived"); if (any_hold) ctx.label("hold");
 	if (segs >= 10) ctx.label("ten_segments");
 	if (accepted_side_segments >= 2) ctx.label("accepted_side_sends");
 	if (mtu_nondefault) ctx.label("mtu_nondefault");
@@ -854,7 +862,7 @@ rc::Gen<Rec> gen_q(char const* name, std::vector<long long> prefix, int mode, in
 rc::Gen<Rec> gen_xfer(long long c, long long maxtotal, int dirmode)
 {
 	auto total = rc::gen::oneOf(kit::weighted({{1, 0}, {1, 1}, {2, 1475}, {2, 3000}, {3, 20000}, {2, 60000}}), kit::range(1, maxtotal));
-	return rc::gen::map(rc::gen::tuple(kit::range(0, 1), total, kit::range(0, 9), kit::range(1, 4), kit::range(0, 7), kit::range(1, 3), kit::weighted({{3, 0}, {1, 1}, {1, 2}})),
+	return rc::gen::map(rc::gen::tuple(kit::range(0, 1), total, kit::range(0, 9), kit::range(1, 4), kit::range(0, 7), kit::range(1, 3), kit::weighted({{3, 0}, {1, 1}, {1, 2}, {1, 3}})),
 		[c, maxtotal, dirmode](std::tuple<long long, long long, long long, long long, long long, long long, long long> t) {
 			long long dir = dirmode == 2 ? std::get<0>(t) : dirmode;
 			long long total = std::min(maxtotal, std::get<1>(t));
